@@ -29,7 +29,6 @@ import (
 	"github.com/bitcoin-sv/block-headers-service/internal/chaincfg"
 	"github.com/bitcoin-sv/block-headers-service/internal/chaincfg/chainhash"
 	"github.com/bitcoin-sv/block-headers-service/verifharness/lib"
-	"github.com/rs/zerolog"
 )
 
 const c17Batch = 500 // sqliteBatchSize (unexported constant of /repo/database/sqlite_adapter.go)
@@ -161,7 +160,7 @@ func c17Export(srcFile, out string) (err error) {
 	cfg := lib.BaseConfig()
 	cfg.Db.SQLite.FilePath = srcFile
 	cfg.Db.PreparedDbFilePath = c17Rel(out)
-	log := zerolog.Nop()
+	log := lib.DiscardLog()
 	return database.ExportHeaders(cfg, &log)
 }
 
